@@ -1,5 +1,7 @@
-(* LangProofs.v — laws of the reference evaluator of Lang.v (all by computation / induction on
-   fuel) and the non-vacuity Examples.  The property file props/C02.v restates the theorems. *)
+(* LangProofs.v — laws of the reference evaluator of Lang.v and the non-vacuity Examples.  The
+   property file props/C02.v restates the theorems.  The evaluator is structurally recursive on
+   the AST (fuel is consumed only by function calls and imports), so the laws are equations at
+   one fuel level. *)
 From Coq Require Import ZArith List Bool Lia.
 From Quiver Require Import lang.Lang.
 Import ListNotations.
@@ -19,123 +21,170 @@ Proof. reflexivity. Qed.
 Lemma bind_ret : forall A B (a : A) w (k : A -> res B), bind (Ret a w) k = tick w (k a).
 Proof. reflexivity. Qed.
 
-(* ------------------------------------------------------------------------------------------
-   chain = infallible pipe: whatever a term evaluates to (nil included) flows into the next
-   term; the only effect of a nil is the event counter. *)
-Lemma chain_infallible : forall mods n c e t ts v x e1 w,
-  eval_term mods n c e t v = Ret (x, e1) w ->
-  eval_terms mods (S n) c e (t :: ts) v =
-  tick w (tick (match t, ts with
-                | Match _, _ :: _ => if is_nil x then ev_mid_fail else st0
-                | _, _ => st0
-                end) (eval_terms mods n c e1 ts x)).
-Proof.
-  intros mods n c e t ts v x e1 w H. simpl. rewrite H. reflexivity.
-Qed.
+Section Laws.
+  Variable tf : nat.
+  Variable callf : value -> value -> stats -> res value.
+  Variable importf : list atom -> res value.
+  Notation eval_term := (eval_term tf callf importf).
+  Notation eval_chain := (eval_chain tf callf importf).
+  Notation eval_sequence := (eval_sequence tf callf importf).
+  Notation eval_expr := (eval_expr tf callf importf).
 
-Corollary chain_nil_flows : forall mods n c e t ts v e1 w,
-  eval_term mods n c e t v = Ret (vnil, e1) w ->
-  exists s1 s2, eval_terms mods (S n) c e (t :: ts) v = tick s1 (tick s2 (eval_terms mods n c e1 ts vnil)).
-Proof.
-  intros mods n c e t ts v e1 w H. rewrite (chain_infallible _ _ _ _ _ ts _ _ _ _ H). eauto.
-Qed.
 
-(* sequence = fallible pipe: a nil step ends the sequence with nil; the remaining steps do not
-   matter (they are not evaluated: the equation holds for every `rest`). *)
-Lemma sequence_short_circuit : forall mods n c e ch rest v x e1 w,
-  rest <> [] ->
-  eval_chain mods n c e ch v = Ret (x, e1) w -> is_nil x = true ->
-  eval_seq mods (S n) c e (ch :: rest) v = Ret (vnil, e1) (st_add w ev_short).
-Proof.
-  intros mods n c e ch rest v x e1 w Hne H Hnil. simpl eval_seq. destruct rest as [|r0 rest]; [congruence|].
-  rewrite H. cbn [bind fst snd]. rewrite Hnil. reflexivity.
-Qed.
+  (* unfolding equations of the structural evaluator (all by conversion) *)
+  Lemma eval_chain_none : forall c ts e v, eval_chain c (Chain None ts) e v = terms_with (eval_term c) ts e v.
+  Proof. reflexivity. Qed.
+  Lemma eval_chain_some : forall c p ts e v,
+    eval_chain c (Chain (Some p) ts) e v = (do x <- terms_with (eval_term c) ts e v ;; do_match tf c (snd x) p (fst x)).
+  Proof. reflexivity. Qed.
+  Lemma eval_sequence_eq : forall c cs e v, eval_sequence c (Sequence cs) e v = seq_with (eval_chain c) cs e v.
+  Proof. reflexivity. Qed.
+  Lemma eval_expr_eq : forall c bs e v, eval_expr c (Expression bs) e v = branches_with (eval_sequence c) bs e v.
+  Proof. reflexivity. Qed.
+  Lemma eval_term_block : forall c b e v, eval_term c (Block b) e v = with_env e (eval_expr c b e v).
+  Proof. reflexivity. Qed.
+  Lemma eval_term_string : forall c segs e v,
+    eval_term c (String segs) e v = (do bs <- segments_with (eval_expr c) segs e v [] ;; ret (vstr bs, e)).
+  Proof. reflexivity. Qed.
+  Lemma eval_term_match : forall c p e v, eval_term c (Match p) e v = do_match tf c e p v.
+  Proof. reflexivity. Qed.
+  Lemma eval_term_tuple : forall c name fields e v,
+    eval_term c (Tuple name fields) e v =
+    (do r <- fields_with (eval_chain c) fields e v [] None ;;
+     let '(fs, inh, e') := r in
+     match name with
+     | Anonymous => ret (VTuple None fs, e')
+     | Named a => ret (VTuple (Some a) fs, e')
+     | Inherit => match inh with
+                  | Some nm => ret (VTuple nm fs, e')
+                  | None => Error (EStuck s_inherit)
+                  end
+     end).
+  Proof. reflexivity. Qed.
 
-Lemma sequence_continues : forall mods n c e ch r0 rest v x e1 w,
-  eval_chain mods n c e ch v = Ret (x, e1) w -> is_nil x = false ->
-  eval_seq mods (S n) c e (ch :: r0 :: rest) v = tick w (eval_seq mods n c e1 (r0 :: rest) x).
-Proof.
-  intros mods n c e ch r0 rest v x e1 w H Hnil. simpl eval_seq. rewrite H. cbn [bind fst snd]. rewrite Hnil. reflexivity.
-Qed.
+  (* chain = infallible pipe: whatever a term evaluates to (nil included) flows into the next
+     term; the only effect of a nil is the event counter. *)
+  Lemma chain_infallible : forall c e t ts v x e1 w,
+    eval_term c t e v = Ret (x, e1) w ->
+    eval_chain c (Chain None (t :: ts)) e v =
+    tick w (tick (match t, ts with
+                  | Match _, _ :: _ => if is_nil x then ev_mid_fail else st0
+                  | _, _ => st0
+                  end) (eval_chain c (Chain None ts) e1 x)).
+  Proof.
+    intros c e t ts v x e1 w H. rewrite !eval_chain_none. cbn [terms_with]. rewrite H. reflexivity.
+  Qed.
 
-(* a branch whose condition is nil is abandoned: the next branch starts from the block's input
-   in the scope the block was entered with; the consequence is not evaluated *)
-Lemma branch_fallthrough : forall mods n c e cond conseq rest v x e1 w,
-  eval_seq mods n c e (seq_chains cond) v = Ret (x, e1) w -> is_nil x = true ->
-  eval_branches mods (S n) c e (Branch cond conseq :: rest) v =
-  tick w (tick ev_fallthrough (eval_branches mods n c e rest v)).
-Proof.
-  intros mods n c e cond conseq rest v x e1 w H Hnil. simpl eval_branches. rewrite H.
-  cbn [bind fst snd]. rewrite Hnil. reflexivity.
-Qed.
+  Corollary chain_nil_flows : forall c e t ts v e1 w,
+    eval_term c t e v = Ret (vnil, e1) w ->
+    exists s1 s2, eval_chain c (Chain None (t :: ts)) e v = tick s1 (tick s2 (eval_chain c (Chain None ts) e1 vnil)).
+  Proof.
+    intros c e t ts v e1 w H. rewrite (chain_infallible _ _ _ ts _ _ _ _ H). eauto.
+  Qed.
 
-Lemma block_without_match_is_nil : forall mods n c e v,
-  eval_branches mods (S n) c e [] v = Ret vnil st0.
-Proof. reflexivity. Qed.
+  (* sequence = fallible pipe: a nil step ends the sequence with nil; the remaining steps do not
+     matter (they are not evaluated: the equation holds for every `rest`). *)
+  Lemma sequence_short_circuit : forall c e ch rest v x e1 w,
+    rest <> [] ->
+    eval_chain c ch e v = Ret (x, e1) w -> is_nil x = true ->
+    eval_sequence c (Sequence (ch :: rest)) e v = Ret (vnil, e1) (st_add w ev_short).
+  Proof.
+    intros c e ch rest v x e1 w Hne H Hnil. rewrite ?eval_sequence_eq. cbn [seq_with].
+    destruct rest as [|r0 rest]; [congruence|]. rewrite H. cbn [bind fst snd]. rewrite Hnil. reflexivity.
+  Qed.
 
-(* a condition that is not nil commits: the block's value is the consequence's value even when
-   that is nil; the remaining branches do not matter *)
-Lemma consequence_commits : forall mods n c e cond k rest v x e1 w y e2 w2,
-  eval_seq mods n c e (seq_chains cond) v = Ret (x, e1) w -> is_nil x = false ->
-  eval_seq mods n c e1 (seq_chains k) v = Ret (y, e2) w2 ->
-  exists w', eval_branches mods (S n) c e (Branch cond (Some k) :: rest) v = Ret y w'.
-Proof.
-  intros mods n c e cond k rest v x e1 w y e2 w2 H Hnil H2. simpl eval_branches. rewrite H.
-  cbn [bind fst snd]. rewrite Hnil, H2. cbn. eexists. reflexivity.
-Qed.
+  Lemma sequence_continues : forall c e ch r0 rest v x e1 w,
+    eval_chain c ch e v = Ret (x, e1) w -> is_nil x = false ->
+    eval_sequence c (Sequence (ch :: r0 :: rest)) e v = tick w (eval_sequence c (Sequence (r0 :: rest)) e1 x).
+  Proof.
+    intros c e ch r0 rest v x e1 w H Hnil. rewrite ?eval_sequence_eq. cbn [seq_with]. rewrite H.
+    cbn [bind fst snd]. rewrite Hnil. reflexivity.
+  Qed.
 
-Lemma condition_without_consequence : forall mods n c e cond rest v x e1 w,
-  eval_seq mods n c e (seq_chains cond) v = Ret (x, e1) w -> is_nil x = false ->
-  exists w', eval_branches mods (S n) c e (Branch cond None :: rest) v = Ret x w'.
-Proof.
-  intros mods n c e cond rest v x e1 w H Hnil. simpl eval_branches. rewrite H.
-  cbn [bind fst snd]. rewrite Hnil. cbn. eexists. reflexivity.
-Qed.
+  (* a branch whose condition is nil is abandoned: the next branch starts from the block's input
+     in the scope the block was entered with; the consequence is not evaluated *)
+  Lemma branch_fallthrough : forall c e cond conseq rest v x e1 w,
+    eval_sequence c cond e v = Ret (x, e1) w -> is_nil x = true ->
+    eval_expr c (Expression (Branch cond conseq :: rest)) e v =
+    tick w (tick ev_fallthrough (eval_expr c (Expression rest) e v)).
+  Proof.
+    intros c e cond conseq rest v x e1 w H Hnil. rewrite ?eval_expr_eq. cbn [branches_with]. rewrite <- ?eval_expr_eq. rewrite H.
+    cbn [bind fst snd]. rewrite Hnil. reflexivity.
+  Qed.
 
-(* blocks, string holes and function bodies are scopes: the bindings after them are the
-   bindings before them *)
-Lemma block_scoping : forall mods n c e b v r e' w,
-  eval_term mods n c e (Block b) v = Ret (r, e') w -> e' = e.
-Proof.
-  intros mods n c e b v r e' w H. destruct n as [|n]; [discriminate|]. simpl eval_term in H.
-  unfold with_env, bind in H. destruct (eval_expr mods n c e b v); try discriminate.
-  cbn in H. inversion H. reflexivity.
-Qed.
+  Lemma block_without_match_is_nil : forall c e v, eval_expr c (Expression []) e v = Ret vnil st0.
+  Proof. reflexivity. Qed.
 
-Lemma string_scoping : forall mods n c e segs v r e' w,
-  eval_term mods n c e (String segs) v = Ret (r, e') w -> e' = e.
-Proof.
-  intros mods n c e segs v r e' w H. destruct n as [|n]; [discriminate|]. simpl eval_term in H.
-  unfold bind in H. destruct (eval_segments mods n c e segs v []); try discriminate.
-  cbn in H. inversion H. reflexivity.
-Qed.
+  (* a condition that is not nil commits: the block's value is the consequence's value even when
+     that is nil; the remaining branches do not matter *)
+  Lemma consequence_commits : forall c e cond k rest v x e1 w y e2 w2,
+    eval_sequence c cond e v = Ret (x, e1) w -> is_nil x = false ->
+    eval_sequence c k e1 v = Ret (y, e2) w2 ->
+    exists w', eval_expr c (Expression (Branch cond (Some k) :: rest)) e v = Ret y w'.
+  Proof.
+    intros c e cond k rest v x e1 w y e2 w2 H Hnil H2. rewrite ?eval_expr_eq. cbn [branches_with]. rewrite <- ?eval_expr_eq. rewrite H.
+    cbn [bind fst snd]. rewrite Hnil, H2. cbn. eexists. reflexivity.
+  Qed.
 
-(* a function literal captures the whole scope BY VALUE at its definition ... *)
-Lemma closure_captures_scope : forall mods n c e tps pt rt body v,
-  eval_term mods (S n) c e (Function tps pt rt body) v =
-  Ret (VClos (nilary_of (c_tenv c) pt) body e (c_tenv c), e) st0.
-Proof. reflexivity. Qed.
+  Lemma condition_without_consequence : forall c e cond rest v x e1 w,
+    eval_sequence c cond e v = Ret (x, e1) w -> is_nil x = false ->
+    exists w', eval_expr c (Expression (Branch cond None :: rest)) e v = Ret x w'.
+  Proof.
+    intros c e cond rest v x e1 w H Hnil. rewrite ?eval_expr_eq. cbn [branches_with]. rewrite <- ?eval_expr_eq. rewrite H.
+    cbn [bind fst snd]. rewrite Hnil. cbn. eexists. reflexivity.
+  Qed.
 
-(* ... and applying a variable that holds a function consults the caller's scope only to find
-   the function: the body runs in the captured scope (`call` has no scope argument), and the
-   caller's bindings are unchanged afterwards *)
-Lemma closure_captures_by_value : forall mods n c e f clo v,
-  lookup_var f e = Some clo ->
-  eval_term mods (S (S n)) c e (Access (mkAccess (Some (Identifier f)) [])) v =
-  with_env e (tick st0 (if is_callable clo then call mods n clo (tail_arg clo v) st0 else ret clo)).
-Proof.
-  intros mods n c e f clo v H. simpl eval_term. rewrite H. cbn [access_all bind ret]. reflexivity.
-Qed.
+  (* blocks, string holes and function bodies are scopes: the bindings after them are the
+     bindings before them *)
+  Lemma block_scoping : forall c e b v r e' w,
+    eval_term c (Block b) e v = Ret (r, e') w -> e' = e.
+  Proof.
+    intros c e b v r e' w H. rewrite eval_term_block in H.
+    unfold with_env, bind in H. destruct (eval_expr c b e v); try discriminate.
+    cbn in H. inversion H. reflexivity.
+  Qed.
 
-Corollary call_independent_of_caller_scope : forall mods n c1 c2 e1 e2 f clo v,
-  lookup_var f e1 = Some clo -> lookup_var f e2 = Some clo ->
-  bind (eval_term mods (S (S n)) c1 e1 (Access (mkAccess (Some (Identifier f)) [])) v) (fun x => ret (fst x)) =
-  bind (eval_term mods (S (S n)) c2 e2 (Access (mkAccess (Some (Identifier f)) [])) v) (fun x => ret (fst x)).
-Proof.
-  intros mods n c1 c2 e1 e2 f clo v H1 H2.
-  rewrite (closure_captures_by_value _ _ c1 _ _ _ _ H1), (closure_captures_by_value _ _ c2 _ _ _ _ H2).
-  unfold with_env. destruct (tick st0 _); reflexivity.
-Qed.
+  Lemma string_scoping : forall c e segs v r e' w,
+    eval_term c (String segs) e v = Ret (r, e') w -> e' = e.
+  Proof.
+    intros c e segs v r e' w H. rewrite eval_term_string in H.
+    unfold bind in H. destruct (segments_with _ segs e v []); try discriminate.
+    cbn in H. inversion H. reflexivity.
+  Qed.
+
+  (* a function literal captures the whole scope BY VALUE at its definition ... *)
+  Lemma closure_captures_scope : forall c e tps pt rt body v,
+    eval_term c (Function tps pt rt body) e v =
+    Ret (VClos (nilary_of (c_tenv c) pt) body e (c_tenv c), e) st0.
+  Proof. reflexivity. Qed.
+
+  (* ... and applying a variable that holds a function consults the caller's scope only to find
+     the function: the body runs in the captured scope (a call has no scope argument), and the
+     caller's bindings are unchanged afterwards *)
+  Lemma closure_captures_by_value : forall c e f clo v,
+    lookup_var f e = Some clo ->
+    eval_term c (Access (mkAccess (Some (Identifier f)) [])) e v =
+    with_env e (tick st0 (if is_callable clo then callf clo (tail_arg clo v) st0 else ret clo)).
+  Proof.
+    intros c e f clo v H.
+    change (eval_term c (Access (mkAccess (Some (Identifier f)) [])) e v) with
+      (match lookup_var f e with
+       | Some base => with_env e (do w <- access_all base [] ;; apply_value callf w v)
+       | None => Error (EStuck s_unbound)
+       end).
+    rewrite H. reflexivity.
+  Qed.
+
+  Corollary call_independent_of_caller_scope : forall c1 c2 e1 e2 f clo v,
+    lookup_var f e1 = Some clo -> lookup_var f e2 = Some clo ->
+    bind (eval_term c1 (Access (mkAccess (Some (Identifier f)) [])) e1 v) (fun x => ret (fst x)) =
+    bind (eval_term c2 (Access (mkAccess (Some (Identifier f)) [])) e2 v) (fun x => ret (fst x)).
+  Proof.
+    intros c1 c2 e1 e2 f clo v H1 H2.
+    rewrite (closure_captures_by_value c1 _ _ _ _ H1), (closure_captures_by_value c2 _ _ _ _ H2).
+    unfold with_env. destruct (tick st0 _); reflexivity.
+  Qed.
+End Laws.
 
 (* ------------------------------------------------------------------------------------------
    Fuel monotonicity: an outcome other than Timeout is stable under more fuel, for every
@@ -294,21 +343,82 @@ Proof.
   destruct (pmatch_mono n m (c_tenv c) e Hle p [] v) as [-> | ->]; [left; reflexivity | right; reflexivity].
 Qed.
 
-(* every judgement of the evaluator at fuel n is below the same judgement at fuel m *)
-Definition mono_at (mods : list (list atom * program)) (n m : nat) : Prop :=
-  (forall c e t v, le_res (eval_term mods n c e t v) (eval_term mods m c e t v)) /\
-  (forall w v, le_res (apply_value mods n w v) (apply_value mods m w v)) /\
-  (forall f a acc, le_res (call mods n f a acc) (call mods m f a acc)) /\
-  (forall c e ts v, le_res (eval_terms mods n c e ts v) (eval_terms mods m c e ts v)) /\
-  (forall c e ch v, le_res (eval_chain mods n c e ch v) (eval_chain mods m c e ch v)) /\
-  (forall c e cs v, le_res (eval_seq mods n c e cs v) (eval_seq mods m c e cs v)) /\
-  (forall c e bs v, le_res (eval_branches mods n c e bs v) (eval_branches mods m c e bs v)) /\
-  (forall c e b v, le_res (eval_expr mods n c e b v) (eval_expr mods m c e b v)) /\
-  (forall c e fs v acc inh, le_res (eval_fields mods n c e fs v acc inh) (eval_fields mods m c e fs v acc inh)) /\
-  (forall c e segs v acc, le_res (eval_segments mods n c e segs v acc) (eval_segments mods m c e segs v acc)) /\
-  (forall path, le_res (eval_import mods n path) (eval_import mods m path)) /\
-  (forall p, le_res (eval_program mods n p) (eval_program mods m p)).
 
+(* ------------------------------------------------------------------------------------------
+   Induction principle for the nested mutual AST. *)
+Section AstInd.
+  Variables (Pt : term -> Prop) (Pf : tuple_field -> Prop) (Pg : str_segment -> Prop)
+            (Pc : chain -> Prop) (Ps : sequence -> Prop) (Pb : branch -> Prop) (Pe : expression -> Prop).
+  Definition Popt {A} (P : A -> Prop) (o : option A) : Prop := match o with Some a => P a | None => True end.
+  Hypothesis HLiteral : forall l, Pt (Literal l).
+  Hypothesis HTuple : forall n fs, Forall Pf fs -> Pt (Tuple n fs).
+  Hypothesis HString : forall segs, Forall Pg segs -> Pt (String segs).
+  Hypothesis HMatch : forall p, Pt (Match p).
+  Hypothesis HBlock : forall e, Pe e -> Pt (Block e).
+  Hypothesis HFunction : forall tps pt rt body, Popt Pe body -> Pt (Function tps pt rt body).
+  Hypothesis HAccess : forall a, Pt (Access a).
+  Hypothesis HSpawn : forall t, Pt t -> Pt (Spawn t).
+  Hypothesis HSelf : Pt Self_.
+  Hypothesis HSelect : forall cs, Popt (Forall Pc) cs -> Pt (Select cs).
+  Hypothesis HProcess : forall n, Pt (Process n).
+  Hypothesis HReference : forall a, Pt (Reference a).
+  Hypothesis HFieldChain : forall n c, Pc c -> Pf (TupleField n (FChain c)).
+  Hypothesis HFieldSpread : forall n x, Pf (TupleField n (FSpread x)).
+  Hypothesis HText : forall b, Pg (Text b).
+  Hypothesis HHole : forall e, Pe e -> Pg (Hole e).
+  Hypothesis HChain : forall mp ts, Forall Pt ts -> Pc (Chain mp ts).
+  Hypothesis HSequence : forall cs, Forall Pc cs -> Ps (Sequence cs).
+  Hypothesis HBranch : forall c k, Ps c -> Popt Ps k -> Pb (Branch c k).
+  Hypothesis HExpression : forall bs, Forall Pb bs -> Pe (Expression bs).
+
+  Fixpoint term_ind' (t : term) : Pt t :=
+    match t with
+    | Literal l => HLiteral l
+    | Tuple n fs => HTuple n fs ((fix go (l : list tuple_field) : Forall Pf l :=
+                      match l with [] => Forall_nil _ | x :: r => Forall_cons x (field_ind' x) (go r) end) fs)
+    | String segs => HString segs ((fix go (l : list str_segment) : Forall Pg l :=
+                      match l with [] => Forall_nil _ | x :: r => Forall_cons x (segment_ind' x) (go r) end) segs)
+    | Match p => HMatch p
+    | Block e => HBlock e (expression_ind' e)
+    | Function tps pt rt body => HFunction tps pt rt body (match body with Some e => expression_ind' e | None => I end)
+    | Access a => HAccess a
+    | Spawn t' => HSpawn t' (term_ind' t')
+    | Self_ => HSelf
+    | Select None => HSelect None I
+    | Select (Some cs) => HSelect (Some cs) ((fix go (l : list chain) : Forall Pc l :=
+                      match l with [] => Forall_nil _ | x :: r => Forall_cons x (chain_ind' x) (go r) end) cs)
+    | Process n => HProcess n
+    | Reference a => HReference a
+    end
+  with field_ind' (f : tuple_field) : Pf f :=
+    match f with
+    | TupleField n (FChain c) => HFieldChain n c (chain_ind' c)
+    | TupleField n (FSpread x) => HFieldSpread n x
+    end
+  with segment_ind' (g : str_segment) : Pg g :=
+    match g with Text b => HText b | Hole e => HHole e (expression_ind' e) end
+  with chain_ind' (c : chain) : Pc c :=
+    match c with Chain mp ts => HChain mp ts ((fix go (l : list term) : Forall Pt l :=
+                      match l with [] => Forall_nil _ | x :: r => Forall_cons x (term_ind' x) (go r) end) ts) end
+  with sequence_ind' (s : sequence) : Ps s :=
+    match s with Sequence cs => HSequence cs ((fix go (l : list chain) : Forall Pc l :=
+                      match l with [] => Forall_nil _ | x :: r => Forall_cons x (chain_ind' x) (go r) end) cs) end
+  with branch_ind' (b : branch) : Pb b :=
+    match b with Branch c k => HBranch c k (sequence_ind' c)
+                                 (match k with Some s => sequence_ind' s | None => I end) end
+  with expression_ind' (e : expression) : Pe e :=
+    match e with Expression bs => HExpression bs ((fix go (l : list branch) : Forall Pb l :=
+                      match l with [] => Forall_nil _ | x :: r => Forall_cons x (branch_ind' x) (go r) end) bs) end.
+
+  Lemma ast_mutind :
+    (forall t, Pt t) /\ (forall c, Pc c) /\ (forall s, Ps s) /\ (forall e, Pe e).
+  Proof.
+    repeat split; [apply term_ind' | apply chain_ind' | apply sequence_ind' | apply expression_ind'].
+  Qed.
+End AstInd.
+
+(* ------------------------------------------------------------------------------------------
+   Monotonicity of one level in what consumes fuel. *)
 Ltac le_struct :=
   repeat match goal with
   | |- le_res ?a ?a => apply le_refl
@@ -325,41 +435,197 @@ Ltac le_struct :=
   | H : forall _, _ |- le_res _ _ => apply H
   end.
 
+Section WalkerMono.
+  Lemma terms_with_le : forall (ev ev' : term -> env -> value -> res (value * env)) ts,
+    Forall (fun t => forall e v, le_res (ev t e v) (ev' t e v)) ts ->
+    forall e v, le_res (terms_with ev ts e v) (terms_with ev' ts e v).
+  Proof.
+    intros ev ev' ts H. induction H as [|t r Ht _ IH]; intros e v; cbn [terms_with]; le_struct.
+  Qed.
+  Lemma seq_with_le : forall (ev ev' : chain -> env -> value -> res (value * env)) cs,
+    Forall (fun c => forall e v, le_res (ev c e v) (ev' c e v)) cs ->
+    forall e v, le_res (seq_with ev cs e v) (seq_with ev' cs e v).
+  Proof.
+    intros ev ev' cs H. induction H as [|c r Hc _ IH]; intros e v; cbn [seq_with]; le_struct.
+  Qed.
+  Lemma fields_with_le : forall (ev ev' : chain -> env -> value -> res (value * env)) fs,
+    Forall (fun f => match f with
+                     | TupleField _ (FChain c) => forall e v, le_res (ev c e v) (ev' c e v)
+                     | _ => True
+                     end) fs ->
+    forall e v acc inh, le_res (fields_with ev fs e v acc inh) (fields_with ev' fs e v acc inh).
+  Proof.
+    intros ev ev' fs H. induction H as [|[l [c|x]] r Hc _ IH]; intros e v acc inh; cbn [fields_with]; le_struct.
+  Qed.
+  Lemma branches_with_le : forall (ev ev' : sequence -> env -> value -> res (value * env)) bs,
+    Forall (fun b => match b with
+                     | Branch c k => (forall e v, le_res (ev c e v) (ev' c e v)) /\
+                                     Popt (fun s => forall e v, le_res (ev s e v) (ev' s e v)) k
+                     end) bs ->
+    forall e v, le_res (branches_with ev bs e v) (branches_with ev' bs e v).
+  Proof.
+    intros ev ev' bs H. induction H as [|[c k] r [Hc Hk] _ IH]; intros e v; cbn [branches_with]; [apply le_refl|].
+    apply le_bind; [apply Hc|]. intros x. destruct (is_nil (fst x)); [le_struct|].
+    destruct k as [k|]; cbn in Hk; le_struct.
+  Qed.
+  Lemma segments_with_le : forall (ev ev' : expression -> env -> value -> res value) segs,
+    Forall (fun g => match g with
+                     | Hole b => forall e v, le_res (ev b e v) (ev' b e v)
+                     | Text _ => True
+                     end) segs ->
+    forall e v acc, le_res (segments_with ev segs e v acc) (segments_with ev' segs e v acc).
+  Proof.
+    intros ev ev' segs H. induction H as [|[bs|b] r Hg _ IH]; intros e v acc; cbn [segments_with]; le_struct.
+  Qed.
+End WalkerMono.
+
+Section LevelMono.
+  Variables (tf tf' : nat) (cf cf' : value -> value -> stats -> res value) (imf imf' : list atom -> res value).
+  Hypothesis Htf : (tf <= tf')%nat.
+  Hypothesis Hcf : forall f a acc, le_res (cf f a acc) (cf' f a acc).
+  Hypothesis Himf : forall p, le_res (imf p) (imf' p).
+
+  Lemma apply_value_le : forall w v, le_res (apply_value cf w v) (apply_value cf' w v).
+  Proof. intros. unfold apply_value. le_struct. Qed.
+
+  Lemma level_mono :
+    (forall t c e v, le_res (eval_term tf cf imf c t e v) (eval_term tf' cf' imf' c t e v)) /\
+    (forall ch c e v, le_res (eval_chain tf cf imf c ch e v) (eval_chain tf' cf' imf' c ch e v)) /\
+    (forall s c e v, le_res (eval_sequence tf cf imf c s e v) (eval_sequence tf' cf' imf' c s e v)) /\
+    (forall b c e v, le_res (eval_expr tf cf imf c b e v) (eval_expr tf' cf' imf' c b e v)).
+  Proof.
+    pose proof apply_value_le as Hap.
+    apply (ast_mutind
+      (fun t => forall c e v, le_res (eval_term tf cf imf c t e v) (eval_term tf' cf' imf' c t e v))
+      (fun f => match f with
+                | TupleField _ (FChain ch) => forall c e v, le_res (eval_chain tf cf imf c ch e v) (eval_chain tf' cf' imf' c ch e v)
+                | _ => True
+                end)
+      (fun g => match g with
+                | Hole b => forall c e v, le_res (eval_expr tf cf imf c b e v) (eval_expr tf' cf' imf' c b e v)
+                | Text _ => True
+                end)
+      (fun ch => forall c e v, le_res (eval_chain tf cf imf c ch e v) (eval_chain tf' cf' imf' c ch e v))
+      (fun s => forall c e v, le_res (eval_sequence tf cf imf c s e v) (eval_sequence tf' cf' imf' c s e v))
+      (fun b => match b with
+                | Branch cd k =>
+                    (forall c e v, le_res (eval_sequence tf cf imf c cd e v) (eval_sequence tf' cf' imf' c cd e v)) /\
+                    Popt (fun s => forall c e v, le_res (eval_sequence tf cf imf c s e v) (eval_sequence tf' cf' imf' c s e v)) k
+                end)
+      (fun b => forall c e v, le_res (eval_expr tf cf imf c b e v) (eval_expr tf' cf' imf' c b e v))).
+    - intros; apply le_refl.
+    - intros n fs H c e v. rewrite !eval_term_tuple. apply le_bind.
+      + apply fields_with_le. eapply Forall_impl; [|exact H]. intros [l [ch|x]] Hf; auto.
+      + intros [[fs' inh] e']. apply le_refl.
+    - intros segs H c e v. rewrite !eval_term_string. apply le_bind; [|intros; apply le_refl].
+      apply segments_with_le. eapply Forall_impl; [|exact H]. intros [bs|b] Hg; auto.
+    - intros p c e v. rewrite !eval_term_match. apply do_match_mono; assumption.
+    - intros b H c e v. rewrite !eval_term_block. apply le_with_env, H.
+    - intros; apply le_refl.
+    - intros [src path] c e v. cbn [eval_term]. unfold apply_value. le_struct.
+    - intros; apply le_refl.
+    - intros; apply le_refl.
+    - intros; apply le_refl.
+    - intros; apply le_refl.
+    - intros [src path] c e v. cbn [eval_term]. le_struct.
+    - intros n ch H. exact H.
+    - intros; exact I.
+    - intros; exact I.
+    - intros b H. exact H.
+    - intros mp ts H c e v. destruct mp as [p|]; [rewrite !eval_chain_some | rewrite !eval_chain_none].
+      + apply le_bind; [|intros; apply do_match_mono; assumption].
+        apply terms_with_le. eapply Forall_impl; [|exact H]. intros t Ht e0 v0. apply Ht.
+      + apply terms_with_le. eapply Forall_impl; [|exact H]. intros t Ht e0 v0. apply Ht.
+    - intros cs H c e v. rewrite !eval_sequence_eq. apply seq_with_le.
+      eapply Forall_impl; [|exact H]. intros ch Hc e0 v0. apply Hc.
+    - intros cd k Hc Hk. split; [exact Hc | exact Hk].
+    - intros bs H c e v. rewrite !eval_expr_eq. apply branches_with_le.
+      eapply Forall_impl; [|exact H]. intros [cd k] [Hc Hk]. split; [intros; apply Hc|].
+      destruct k; cbn in *; auto.
+  Qed.
+End LevelMono.
+
+(* ------------------------------------------------------------------------------------------
+   Fuel monotonicity of the whole evaluator: calls, imports, programs, expressions. *)
+Definition mono_at (mods : list (list atom * program)) (n m : nat) : Prop :=
+  (forall f a acc, le_res (call mods n f a acc) (call mods m f a acc)) /\
+  (forall path, le_res (eval_import mods n path) (eval_import mods m path)).
+
+Lemma run_program_le : forall tf tf' cf cf' imf imf' p,
+  (tf <= tf')%nat -> (forall f a acc, le_res (cf f a acc) (cf' f a acc)) -> (forall q, le_res (imf q) (imf' q)) ->
+  le_res (run_program tf cf imf p) (run_program tf' cf' imf' p).
+Proof.
+  intros tf tf' cf cf' imf imf' [ss] Htf Hcf Him. unfold run_program.
+  destruct (level_mono tf tf' cf cf' imf imf' Htf Hcf Him) as (_ & Hchain & _ & _).
+  assert (H : le_res (seq_with (eval_chain tf cf imf (mkCtx vnil None (collect_aliases ss))) (collect_chains ss) [] vnil)
+                     (seq_with (eval_chain tf' cf' imf' (mkCtx vnil None (collect_aliases ss))) (collect_chains ss) [] vnil)).
+  { apply seq_with_le. apply Forall_forall. intros ch _ e v. apply Hchain. }
+  destruct H as [-> | ->]; [apply le_timeout | apply le_refl].
+Qed.
+
+Lemma call_S : forall mods m f arg acc,
+  call mods (S m) f arg acc =
+  match f with
+  | VBuiltin b => tick acc (apply_builtin b arg)
+  | VClos _ None _ _ => Ret arg acc
+  | VClos _ (Some body) cenv te =>
+      match eval_expr m (call mods m) (eval_import mods m) (mkCtx arg (Some f) te) body cenv arg with
+      | Ret r w => Ret r (st_add acc (st_add ev_closure_call w))
+      | TailC g a w => call mods m g a (st_add acc (st_add ev_closure_call (st_add w ev_tail_call)))
+      | Error err => Error err
+      | Timeout => Timeout
+      end
+  | _ => Error (EStuck s_notfun)
+  end.
+Proof. reflexivity. Qed.
+
+Lemma eval_import_S : forall mods m path,
+  eval_import mods (S m) path =
+  match find_module path mods with
+  | Some p => run_program m (call mods m) (eval_import mods m) p
+  | None => Error (EUnsupported u_module)
+  end.
+Proof. reflexivity. Qed.
+
 Lemma mono_all : forall mods n m, (n <= m)%nat -> mono_at mods n m.
 Proof.
   intros mods. induction n as [|n IH]; intros m Hle.
-  - repeat split; intros; apply le_timeout.
+  - split; intros; apply le_timeout.
   - destruct m as [|m]; [lia|]. assert (Hle' : (n <= m)%nat) by lia.
-    destruct (IH m Hle') as (Hterm & Happly & Hcall & Hterms & Hchain & Hseq & Hbranches & Hexpr & Hfields & Hsegs & Himport & Hprog).
-    clear IH. repeat split; intros.
-    + (* eval_term *) simpl. le_struct.
-    + (* apply_value *) simpl. le_struct.
-    + (* call *) simpl. le_struct.
-    + simpl. le_struct.
-    + simpl. le_struct.
-    + simpl. le_struct.
-    + simpl. le_struct.
-    + simpl. le_struct.
-    + simpl. le_struct.
-    + simpl. le_struct.
-    + simpl. le_struct.
-    + simpl. destruct p as [ss]. le_struct.
+    destruct (IH m Hle') as (Hcall & Himp). split.
+    + intros f a acc. rewrite !call_S. destruct f as [z0|bs0|nm0 fs0|nl body cenv te|b]; try apply le_refl.
+      destruct body as [body|]; [|apply le_refl].
+      destruct (level_mono n m _ _ _ _ Hle' Hcall Himp) as (_ & _ & _ & Hexpr).
+      destruct (Hexpr body (mkCtx a (Some (VClos nl (Some body) cenv te)) te) cenv a) as [-> | ->]; [apply le_timeout|].
+      destruct (eval_expr m (call mods m) (eval_import mods m) _ body cenv a); try apply le_refl. apply Hcall.
+    + intros path. rewrite !eval_import_S. destruct (find_module path mods); [|apply le_refl].
+      apply run_program_le; assumption.
 Qed.
 
 Theorem eval_fuel_mono : forall mods n m c e b v r,
   (n <= m)%nat -> eval mods n c e b v = r -> r <> Timeout -> eval mods m c e b v = r.
 Proof.
-  intros mods n m c e b v r Hle H Hr. unfold eval in *.
-  destruct (mono_all mods n m Hle) as (_ & _ & _ & _ & _ & _ & _ & Hexpr & _).
-  destruct (Hexpr c e b v) as [Ht | Heq]; congruence.
+  intros mods n m c e b v r Hle H Hr. destruct n as [|n]; [cbn in H; congruence|].
+  destruct m as [|m]; [lia|]. assert (Hle' : (n <= m)%nat) by lia. unfold eval in *.
+  destruct (mono_all mods n m Hle') as (Hcall & Himp).
+  destruct (level_mono n m _ _ _ _ Hle' Hcall Himp) as (_ & _ & _ & Hexpr).
+  destruct (Hexpr b c e v) as [Ht | Heq]; congruence.
 Qed.
 
 Theorem eval_program_fuel_mono : forall mods n m p r,
   (n <= m)%nat -> eval_program mods n p = r -> r <> Timeout -> eval_program mods m p = r.
 Proof.
-  intros mods n m p r Hle H Hr.
-  destruct (mono_all mods n m Hle) as (_ & _ & _ & _ & _ & _ & _ & _ & _ & _ & _ & Hprog).
-  destruct (Hprog p) as [Ht | Heq]; congruence.
+  intros mods n m p r Hle H Hr. destruct n as [|n]; [cbn in H; congruence|].
+  destruct m as [|m]; [lia|]. assert (Hle' : (n <= m)%nat) by lia. unfold eval_program in *.
+  destruct (mono_all mods n m Hle') as (Hcall & Himp).
+  destruct (run_program_le n m _ _ _ _ p Hle' Hcall Himp) as [Ht | Heq]; congruence.
+Qed.
+
+Theorem call_fuel_mono : forall mods n m f a acc r,
+  (n <= m)%nat -> call mods n f a acc = r -> r <> Timeout -> call mods m f a acc = r.
+Proof.
+  intros mods n m f a acc r Hle H Hr. destruct (mono_all mods n m Hle) as (Hcall & _).
+  destruct (Hcall f a acc) as [Ht | Heq]; congruence.
 Qed.
 
 (* the semantics is a partial function: two fuels that both finish agree *)
@@ -386,10 +652,10 @@ Proof.
   - right. inversion H; subst. auto.
 Qed.
 
-Corollary match_term_verdict : forall mods n c e p v r e' w,
-  eval_term mods (S n) c e (Match p) v = Ret (r, e') w -> r = vok \/ r = vnil.
+Corollary match_term_verdict : forall tf cf imf c e p v r e' w,
+  eval_term tf cf imf c (Match p) e v = Ret (r, e') w -> r = vok \/ r = vnil.
 Proof.
-  intros mods n c e p v r e' w H. simpl in H. apply match_verdict in H. tauto.
+  intros tf cf imf c e p v r e' w H. rewrite eval_term_match in H. apply match_verdict in H. tauto.
 Qed.
 
 (* a bare binder always succeeds and binds exactly that name, nil included *)
@@ -691,7 +957,7 @@ Proof. eexists. vm_compute. split; reflexivity. Qed.
 (* fuel monotonicity is not vacuous: the countdown needs fuel; with too little it times out, with
    enough it finishes, and more fuel does not change the outcome *)
 Example ex_fuel :
-  eval_program [] 5 (prog [bindc (MIdentifier f_) [ex_countdown]; ch [int 3; var f_]]) = Timeout /\
+  eval_program [] 3 (prog [bindc (MIdentifier f_) [ex_countdown]; ch [int 3; var f_]]) = Timeout /\
   val_of (eval_program [] 40 (prog [bindc (MIdentifier f_) [ex_countdown]; ch [int 3; var f_]])) =
   val_of (eval_program [] 400 (prog [bindc (MIdentifier f_) [ex_countdown]; ch [int 3; var f_]])).
 Proof. split; vm_compute; reflexivity. Qed.
